@@ -320,7 +320,7 @@ def valOf (d : AttrDecl) : Option String → Option String
 
 theorem computeAttrs_nil (g : Attrs) : computeAttrs [] g = .ok [] := rfl
 
-theorem computeAttrs_cons (d : AttrDecl) (ds : List AttrDecl) (g : Attrs) :
+theorem computeAttrs_cons_valOf (d : AttrDecl) (ds : List AttrDecl) (g : Attrs) :
     computeAttrs (d :: ds) g =
       match computeAttrs ds g with
       | .error e => .error e
@@ -345,7 +345,7 @@ theorem computeAttrs_congr (g g' : Attrs) : ∀ (ds : List AttrDecl),
     (∀ d ∈ ds, lk g d.name = lk g' d.name) → computeAttrs ds g = computeAttrs ds g'
   | [], _ => rfl
   | d :: ds, h => by
-    rw [computeAttrs_cons, computeAttrs_cons,
+    rw [computeAttrs_cons_valOf, computeAttrs_cons_valOf,
       computeAttrs_congr g g' ds (fun d hd => h d (by simp [hd])), h d (by simp)]
 
 theorem lk_cons (k v : String) (g : Attrs) (x : String) :
@@ -363,7 +363,7 @@ theorem computeAttrs_lk (g g' : Attrs) (x : String) (hx : lk g x = lk g' x) :
     simp only [computeAttrs_nil, Except.ok.injEq] at h h'
     subst h; subst h'; rfl
   | d :: ds, r, r', h, h' => by
-    rw [computeAttrs_cons] at h h'
+    rw [computeAttrs_cons_valOf] at h h'
     cases h1 : computeAttrs ds g with
     | error e => simp [h1] at h
     | ok rest =>
@@ -437,9 +437,6 @@ theorem filter_ne_of_not_mem (m : Mark) (l : Marks) (h : m ∉ l) : l.filter (·
 
 theorem removeFromSet_of_not_mem (m : Mark) (l : Marks) (h : m ∉ l) : m.removeFromSet l = l :=
   filter_ne_of_not_mem m l h
-
-theorem isInSet_iff (m : Mark) (l : Marks) : m.isInSet l = true ↔ m ∈ l := by
-  simp [Mark.isInSet, List.any_eq_true]
 
 theorem filter_ne_insertByRank (m : Mark) (l : Marks) (h : m ∉ l) :
     (insertByRank m l).filter (· != m) = l := by
